@@ -31,8 +31,16 @@ func init() {
 	natives["fmt.Sprintf"] = func(fr *Frame, st *State, a []Val, p token.Pos) Val {
 		return fr.formatCall(st, fr.curCall, a, "sprintf", 0, "Str")
 	}
+	natives["sort.Slice"] = nativeSortSlice
+	natives["sort.SliceStable"] = nativeSortSlice
 	natives["fmt.Sprint"] = func(fr *Frame, st *State, a []Val, p token.Pos) Val {
 		return fr.run.havoc("sprint", "Str")
+	}
+	for _, n := range []string{"log.Panicf", "log.Panic", "log.Fatalf", "log.Fatal", "k8s.io/klog/v2.Fatalf", "k8s.io/klog/v2.Fatal", "os.Exit"} {
+		natives[n] = func(fr *Frame, st *State, a []Val, p token.Pos) Val {
+			st.pc = tFalse // never returns
+			return nil
+		}
 	}
 	pureNatives = map[string]pureNativeFn{}
 	B := types.Typ[types.Bool]
@@ -179,4 +187,79 @@ func (e *Engine) isNoop(name string) bool {
 		}
 	}
 	return false
+}
+
+
+// closureTerm evaluates a side-effect-free closure on symbolic arguments as a term (usable under a binder).
+func (fr *Frame) closureTerm(st *State, clo *Closure, args []Term) Term {
+	r := fr.run
+	r.noDef++
+	r.noAssume++
+	r.probing++
+	h0 := r.havocN
+	defer func() { r.noDef--; r.noAssume--; r.probing-- }()
+	scratch := st.clone()
+	var av []Val
+	for _, a := range args {
+		av = append(av, a)
+	}
+	out, res := r.execFunction(clo.Fn, av, clo.Bindings, scratch, false, nil)
+	if out == nil || len(res) != 1 {
+		unsupported("closure %s cannot be evaluated as a pure function", clo.Fn)
+	}
+	if r.havocN != h0 {
+		unsupported("closure %s is not pure (calls with unknown results / allocations)", clo.Fn)
+	}
+	for k, t := range out.heaps {
+		if r.heapGet(st, k).S != t.S {
+			unsupported("closure %s writes to the heap", clo.Fn)
+		}
+	}
+	t, ok := res[0].(Term)
+	if !ok {
+		unsupported("closure %s result is not a term", clo.Fn)
+	}
+	return t
+}
+
+// sort.Slice(x, less): the elements of x are permuted so that less never holds between a later and an earlier element.
+// (ASSUMED standard-library behaviour; the permutation is stated as mutual membership, not as a multiset equality.)
+func nativeSortSlice(fr *Frame, st *State, args []Val, pos token.Pos) Val {
+	r := fr.run
+	c := fr.curCall
+	mi, ok := c.Args[0].(*ssa.MakeInterface)
+	if !ok {
+		unsupported("sort.Slice on a non-literal interface value")
+	}
+	sl, ok := types.Unalias(mi.X.Type()).Underlying().(*types.Slice)
+	if !ok {
+		unsupported("sort.Slice on %s", mi.X.Type())
+	}
+	clo, ok := args[1].(*Closure)
+	if !ok {
+		unsupported("sort.Slice with a non-literal less function")
+	}
+	s := r.constOf(st, "srt", r.unboxIface(mi.X.Type(), fr.toTerm(args[0])))
+	et := sl.Elem()
+	key := r.eng.heapKeyArr(et)
+	A := r.heapGet(st, key)
+	es := r.eng.u.sortOf(et)
+	as := arraySort("Int", es)
+	arr, off, ln := app("Int", "sl_arr", s), app("Int", "sl_off", s), app("Int", "sl_len", s)
+	O := r.constOf(st, "srtO", sel(A, arr))
+	N := r.havoc("srtN", as)
+	r.noteWrite(key, r.arrRefOf(s))
+	r.heapSet(st, key, store(A, arr, N))
+	inR := func(v string) string { return fmt.Sprintf("(and (<= 0 %s) (< %s %s))", v, v, ln.S) }
+	ix := func(v string) string { return fmt.Sprintf("(sl_ix %s %s)", off.S, v) }
+	// every new element is an old element and vice versa
+	r.assume(st, Term{fmt.Sprintf("(forall ((i_ Int)) (! (=> %s (exists ((j_ Int)) (and %s (= (select %s %s) (select %s %s))))) :pattern ((select %s %s))))", inR("i_"), inR("j_"), N.S, ix("i_"), O.S, ix("j_"), N.S, ix("i_")), "Bool"})
+	r.assume(st, Term{fmt.Sprintf("(forall ((j_ Int)) (! (=> %s (exists ((i_ Int)) (and %s (= (select %s %s) (select %s %s))))) :pattern ((select %s %s))))", inR("j_"), inR("i_"), N.S, ix("i_"), O.S, ix("j_"), O.S, ix("j_")), "Bool"})
+	// cells outside the slice are untouched
+	r.assume(st, Term{fmt.Sprintf("(forall ((k_ Int)) (! (=> (or (< k_ %s) (>= k_ (+ %s %s))) (= (select %s k_) (select %s k_))) :pattern ((select %s k_))))", off.S, off.S, ln.S, N.S, O.S, N.S), "Bool"})
+	// sortedness w.r.t. the real less closure, evaluated in the new state
+	less := fr.closureTerm(st, clo, []Term{{"j_", "Int"}, {"i_", "Int"}})
+	r.assume(st, Term{fmt.Sprintf("(forall ((i_ Int) (j_ Int)) (=> (and (<= 0 i_) (< i_ j_) (< j_ %s)) (not %s)))", ln.S, less.S), "Bool"})
+	r.noteAssume("sort.Slice leaves a permutation (mutual membership) ordered by the less function")
+	return nil
 }
